@@ -907,6 +907,10 @@ func (c *CharClassMatcher) parse() {
 	// escaped[i] is true when chars[i] was written as an escape sequence: an
 	// escaped hyphen stands for itself, it is not a range operator.
 	var escaped []bool
+	// classBefore[i] is true when a Unicode class stands immediately before
+	// chars[i]: [a\pL-d] holds the characters a, - and d, not the range a-d.
+	var classBefore []bool
+	sawClass := false
 	var buf bytes.Buffer
 outer:
 	for {
@@ -923,6 +927,7 @@ outer:
 			case ']':
 				chars = append(chars, rn)
 				escaped = append(escaped, true)
+				classBefore, sawClass = append(classBefore, sawClass), false
 				continue
 
 			case 'p':
@@ -942,6 +947,7 @@ outer:
 				} else {
 					c.UnicodeClasses = append(c.UnicodeClasses, string(rn))
 				}
+				sawClass = true
 				continue
 
 			case 'x':
@@ -963,10 +969,12 @@ outer:
 			rn, _, _, _ = strconv.UnquoteChar("\\"+buf.String(), 0)
 			chars = append(chars, rn)
 			escaped = append(escaped, true)
+			classBefore, sawClass = append(classBefore, sawClass), false
 
 		default:
 			chars = append(chars, rn)
 			escaped = append(escaped, false)
+			classBefore, sawClass = append(classBefore, sawClass), false
 		}
 	}
 
@@ -980,7 +988,8 @@ outer:
 			continue
 		}
 
-		if r == '-' && !escaped[i] && !wasRange && len(c.Chars) > 0 && i < len(chars)-1 {
+		if r == '-' && !escaped[i] && !wasRange && len(c.Chars) > 0 && i < len(chars)-1 &&
+			!classBefore[i] && !classBefore[i+1] {
 			inRange = true
 			wasRange = false
 			// start of range is the last Char added
